@@ -319,10 +319,11 @@ def FolderObs.val (o : FolderObs) (st : SimState) : Val :=
   | some f => .dict ((.s "health_status", .int (o.health f)) ::
                      optEntry (!o.files.isEmpty) (.s "FILES") (.dict (enumFrom 1 (o.files.map (·.val st)))))
 
-/-- the object after `observe(state)`: the cache follows the value just reported -/
+/-- the object after `observe(state)`: the cache follows the value just reported; a folder that is not there has no last-scanned
+health (F-C09-4 repaired: the cache is forgotten, so a folder created later under the same name starts unscanned) -/
 def FolderObs.next (o : FolderObs) (st : SimState) : FolderObs :=
   match o.find st with
-  | none => o
+  | none => { o with cached := 0 }
   | some f => { o with cached := o.health f }
 
 /-! ## NICObservation (stateful: `nmne_inbound_last_step`, `nmne_outbound_last_step`) -/
